@@ -1,6 +1,7 @@
 package core
 
 import (
+	"go/token"
 	"go/types"
 	"sort"
 	"strings"
@@ -389,6 +390,31 @@ func DirectHeapWrites(f *ssa.Function) []HeapWrite {
 				v = x.X
 			case *ssa.Slice:
 				v = x.X
+			case *ssa.UnOp:
+				// the map / slice held in a field of an object allocated here, when every value this
+				// function puts into that field is itself made here
+				fa, ok := x.X.(*ssa.FieldAddr)
+				if !ok || x.Op != token.MUL || depth > 3 || !fresh(fa.X, depth+1) {
+					return false
+				}
+				n := 0
+				for _, b := range f.Blocks {
+					for _, in := range b.Instrs {
+						st, ok := in.(*ssa.Store)
+						if !ok {
+							continue
+						}
+						if fa2, ok := st.Addr.(*ssa.FieldAddr); ok && fa2.X == fa.X && fa2.Field == fa.Field {
+							switch st.Val.(type) {
+							case *ssa.MakeMap, *ssa.MakeSlice:
+								n++
+							default:
+								return false
+							}
+						}
+					}
+				}
+				return n > 0
 			case *ssa.Phi:
 				if depth > 3 {
 					return false
